@@ -126,6 +126,9 @@ def prelude_for(g, workdir):
     return p
 
 
+REWRITE_SPECS = {}   # absolute source path -> rewrite spec of the last native_rewrites call
+
+
 def native_rewrites(g, workdir):
     """noverride= options: source files of the package rewritten so that the named functions forward to the harness
     stub while the harnesses that asked for it run (engine/ssaexport/rewrite.go); path in /repo -> rewritten copy"""
@@ -146,6 +149,7 @@ def native_rewrites(g, workdir):
         if r.returncode:
             raise RuntimeError('native override rewrite failed: ' + r.stderr)
         out[src] = dst
+        REWRITE_SPECS[src] = spec
     return out
 
 
@@ -762,9 +766,18 @@ def save_replay(rd, g, root, v, tier, workdir):
     json.dump({'Replace': ov}, open(os.path.join(rd, 'overlay.json'), 'w'), indent=1)
     job = dict(id='replay', root=root, mode=0, seed=0, tier=tier, tab=v.get('model', {}))
     open(os.path.join(rd, 'jobs.jsonl'), 'w').write(json.dumps(job) + '\n')
+    rel = {}
+    rewrites = {}
+    for virt, real in ov.items():
+        r_ = os.path.relpath(virt, REPO)
+        if os.path.basename(real).startswith('rw_'):
+            rewrites[r_] = REWRITE_SPECS.get(virt, '')
+        else:
+            rel[r_] = os.path.basename(real)
     meta = dict(property=os.path.basename(os.path.dirname(rd)), harness=root, kind=v['kind'], where=v['where'],
                 msg=v['msg'], model=v.get('model'), module=g.module, pkgdir=g.pkgdir,
-                expect='panic' if v['kind'] == 'panic' else 'assert:' + v['msg'])
+                expect='panic' if v['kind'] == 'panic' else 'assert:' + v['msg'],
+                rel_overlay=rel, rewrites=rewrites)
     json.dump(meta, open(os.path.join(rd, 'meta.json'), 'w'), indent=1)
     sh = """#!/bin/bash
 # replays the solver model against the real build; exit 1 if the violation reproduces
@@ -778,11 +791,33 @@ cat %s/out.jsonl
 
 
 def replay_saved(rd):
+    rd = os.path.abspath(rd)
     meta = json.load(open(os.path.join(rd, 'meta.json')))
-    r = subprocess.run(['bash', os.path.join(rd, 'run.sh')], capture_output=True, text=True)
-    print(r.stdout[-3000:])
-    end = None
     outp = os.path.join(rd, 'out.jsonl')
+    if os.path.exists(outp):
+        os.remove(outp)
+    if 'rel_overlay' in meta:
+        # rebuild the overlay against the current tree (the saved one may name a scratch worktree that is gone), and
+        # regenerate the environment-stub forwarders from the current sources
+        ov = {os.path.join(REPO, k): os.path.join(rd, v) for k, v in meta['rel_overlay'].items()}
+        for relsrc, spec in meta.get('rewrites', {}).items():
+            dst = os.path.join(rd, 'rw_' + os.path.basename(relsrc))
+            rr = subprocess.run([EXPORTER, '-rewrite', os.path.join(REPO, relsrc), '-spec', spec, '-o', dst],
+                                capture_output=True, text=True)
+            if rr.returncode:
+                print('replay could not be prepared: ' + rr.stderr)
+                return 3
+            ov[os.path.join(REPO, relsrc)] = dst
+        ovp = os.path.join(rd, 'overlay_now.json')
+        json.dump({'Replace': ov}, open(ovp, 'w'), indent=1)
+        env = dict(GOENV, VERIF_JOBS=os.path.join(rd, 'jobs.jsonl'), VERIF_OUT=outp)
+        moddir = os.path.normpath(os.path.join(REPO, meta['module']))
+        r = subprocess.run(['go', 'test', '-vet=off', '-count=1', '-run', '^TestVerifReplay$', '-overlay', ovp,
+                            './' + meta['pkgdir']], cwd=moddir, env=env, capture_output=True, text=True)
+    else:
+        r = subprocess.run(['bash', os.path.join(rd, 'run.sh')], capture_output=True, text=True)
+    print((r.stdout + r.stderr)[-3000:])
+    end = None
     if os.path.exists(outp):
         for line in open(outp):
             if line.strip():
@@ -792,6 +827,9 @@ def replay_saved(rd):
     if hit:
         print('VIOLATION property=%s replay=%s' % (meta['property'], rd))
         return 1
+    if end is None:
+        print('replay could not run (no native result): cannot decide')
+        return 3
     print('replay did not reproduce (native end: %s)' % end)
     return 0
 
